@@ -235,7 +235,8 @@ class Session(object):
             for (p, q), w in G.items():
                 t = w * float(np.dot(self.pvals[id(p)], self.pvals[id(q)]))
                 val += t
-                mag += abs(t)
+                # size of what is summed, cancellation INSIDE the inner product included (<x, A^3 x> = 0 with products of 1e8)
+                mag += abs(w) * float(np.dot(np.abs(self.pvals[id(p)]), np.abs(self.pvals[id(q)])))
             for e, w in F.items():
                 t = w * self.evals[id(e)]
                 val += t
@@ -255,7 +256,7 @@ class Session(object):
                     for (p, q), w in G.items():
                         t = w * float(np.dot(self.pvals[id(p)], self.pvals[id(q)]))
                         val += t
-                        mg += abs(t)
+                        mg += abs(w) * float(np.dot(np.abs(self.pvals[id(p)]), np.abs(self.pvals[id(q)])))
                     for e, w in F.items():
                         t = w * self.evals[id(e)]
                         val += t
